@@ -198,6 +198,9 @@ class Cell:
         self.writes = 0
 
 
+GATE: dict = {}  # the event behind the 'gate_*' dynamic values (reset by the check before each case)
+
+
 def _make_value(vs, cells):
     from bumble import att
     from bumble.gatt import CharacteristicValue
@@ -238,6 +241,35 @@ def _make_value(vs, cells):
             cell.writes += 1
             raise att.ATT_Error(0x80)
 
+        if dk in ('gate_r', 'gate_w', 'gate_aw'):
+            # rendezvous: reading (or asynchronously writing) the gated value completes only once the key value has
+            # been written - by whichever request or command, on whichever bearer, gets there
+            import asyncio
+
+            def gate():
+                ev = GATE.get('ev')
+                if ev is None:
+                    ev = GATE['ev'] = asyncio.Event()
+                return ev
+
+            async def grd(_bearer):
+                cell.reads += 1
+                await gate().wait()
+                return cell.data
+
+            async def gawr(_bearer, value):
+                cell.writes += 1
+                await gate().wait()
+                cell.data = bytes(value)
+
+            def gwr(_bearer, value):
+                cell.writes += 1
+                cell.data = bytes(value)
+                gate().set()
+
+            if dk == 'gate_r':
+                return CharacteristicValue(read=grd, write=gawr)
+            return CharacteristicValue(write=gwr)
         if dk == 'r':
             return CharacteristicValue(read=rd)
         if dk == 'w':
